@@ -162,7 +162,11 @@ type mainCore struct {
 
 func genMainCore(r *Rng) mainCore {
 	ev := pick(r, []string{"commit matches diff", "adds a goroutine as described", "Ünï \"quoted\" <b>", ""})
-	switch r.Intn(16) {
+	switch r.Intn(18) {
+	case 16, 17:
+		// MATCH plus something that does not show: the verdict is not exactly MATCH
+		v := pick(r, []string{"MATCH\u200b", "\u202eMATCH", "MATCH\n", " MATCH", "MATCH\t", "MA\x00TCH", "MATCH\ufeff", "\uff2d\uff21\uff34\uff23\uff28", "MATCH\u00ad", "MATCH\r\n", "MATCH."})
+		return mainCore{fmt.Sprintf(`{"verdict":%s,"evidence":%s}`, jstr(v), jstr(ev)), "match-look-alike", v, ev, true}
 	case 0, 1, 2, 3, 4:
 		return mainCore{fmt.Sprintf(`{"verdict":"MATCH","evidence":%s}`, jstr(ev)), "match", "MATCH", ev, true}
 	case 5:
@@ -315,7 +319,7 @@ var hostileMsgs = []string{
 }
 
 func suiteAudit(c *Ctx) error {
-	c.Res.Rule = "provider scripts for both calls (0..4 retryable faults: transport error/429/500/503-with-a-MATCH-body, then one of 10 terminal classes: 200 string / parts / several assistant items / 4xx / non-JSON / truncated / wrong roles / wrong item type / null content / unusable content) x answer texts (16 verdict classes x 12 decorations incl. fences, prose, trailing second object, stray brace, truncation) x sentinel answers (6 classes) x hostile commit messages (quotes, newlines, look-alike END DATA lines, forged closing tags, control bytes, U+2028, invalid UTF-8, 1999/2000/2001/5000 runes); real llm.CallLLM (+ cli.RunAudit on a sample) vs the Lean model and vs what the generator knows by construction; non-trivial = at least one retry AND a decorated or malformed final answer; distinct by script+message"
+	c.Res.Rule = "provider scripts for both calls (0..4 retryable faults: transport error/429/500/503-with-a-MATCH-body, then one of 10 terminal classes: 200 string / parts / several assistant items / 4xx / non-JSON / truncated / wrong roles / wrong item type / null content / unusable content) x answer texts (17 verdict classes incl. MATCH with an invisible / blank / control / full-width character x 12 decorations incl. fences, prose, trailing second object, stray brace, truncation) x sentinel answers (6 classes) x hostile commit messages (quotes, newlines, look-alike END DATA lines, forged closing tags, control bytes, U+2028, invalid UTF-8, 1999/2000/2001/5000 runes); real llm.CallLLM (+ cli.RunAudit on a sample) vs the Lean model and vs what the generator knows by construction; non-trivial = at least one retry AND a decorated or malformed final answer; distinct by script+message"
 	llm.VerifNoSleep()
 	n := c.N
 	if n == 0 {
